@@ -9,6 +9,7 @@ Everything else (timers, tasks, futures, the library) is the real code.
 from __future__ import annotations
 
 import asyncio
+import heapq
 import random
 import selectors
 import socket
@@ -97,8 +98,39 @@ class _VSelector(selectors.BaseSelector):
         return []
 
 
+class _SeqTimerHandle(asyncio.TimerHandle):
+    """Timer handle ordered by (when, scheduling sequence).  asyncio orders timers by `when` only, so callbacks due at the
+    same instant run in an order that depends on the shape of the heap, i.e. on unrelated timers; in virtual time exact ties
+    are common, and runs that must be comparable event by event (C16) need the tie broken the same way every time: FIFO."""
+
+    __slots__ = ("_seq",)
+
+    def __lt__(self, other: Any) -> bool:
+        if isinstance(other, _SeqTimerHandle):
+            return (self._when, self._seq) < (other._when, other._seq)
+        return NotImplemented
+
+    def __le__(self, other: Any) -> bool:
+        if isinstance(other, _SeqTimerHandle):
+            return (self._when, self._seq) <= (other._when, other._seq)
+        return NotImplemented
+
+    def __gt__(self, other: Any) -> bool:
+        if isinstance(other, _SeqTimerHandle):
+            return (self._when, self._seq) > (other._when, other._seq)
+        return NotImplemented
+
+    def __ge__(self, other: Any) -> bool:
+        if isinstance(other, _SeqTimerHandle):
+            return (self._when, self._seq) >= (other._when, other._seq)
+        return NotImplemented
+
+    __hash__ = asyncio.TimerHandle.__hash__
+
+
 class VLoop(asyncio.SelectorEventLoop):
     def __init__(self, clock: VClock, net: "Net"):
+        self._timer_seq = 0
         sel = _VSelector(clock)
         super().__init__(sel)
         sel.loop = self
@@ -114,6 +146,15 @@ class VLoop(asyncio.SelectorEventLoop):
 
     def _write_to_self(self) -> None:  # no real I/O wake-ups are needed
         return
+
+    def call_at(self, when, callback, *args, context=None):  # type: ignore[override]
+        self._check_closed()
+        timer = _SeqTimerHandle(when, callback, args, self, context)
+        self._timer_seq += 1
+        timer._seq = self._timer_seq
+        heapq.heappush(self._scheduled, timer)
+        timer._scheduled = True
+        return timer
 
     def _run_once(self) -> None:
         self.iterations += 1
